@@ -99,6 +99,16 @@ func (j *judge) explore(nodes map[string]*node, bp BatchProject, seed, pidx uint
 				pl.authScript(p, projgen.Pick(r, []string{"refuse-all", "refuse-all", "random"}))
 				add(p)
 			}
+			// the client went away before the request was served: whatever the router answers, no
+			// controller code may run without an approval (only C03's safety invariant is judged)
+			for _, k := range []string{"refuse-all", "refuse-first"} {
+				p := pl.build(ri, "auth-cancelled-request", nil, false)
+				pl.authScript(p, k)
+				p.CancelledRequest = true
+				p.Expect.Policy = "client cancelled the request before it was served"
+				p.Expect.Outcome = "unjudged"
+				add(p)
+			}
 		} else {
 			// open route: the callback must simply not matter
 			p := pl.build(ri, "auth", nil, false)
